@@ -57,9 +57,18 @@ def sketches(tier):
         ('word_heading', ['cat', ['heading', T('x@H@')], '\n', B], 'WORD', Lw, True),
         ('word_item', ['cat', ['items', 'itemize', [[T('@H@'), B]]], ' ', A], 'WORD', Lw, True),
     ]
+    # any character (every code point that is not LaTeX-active) as first / last of the text
+    START = [
+        ('first_char', ['cat', T('@H@'), A, ' ', ['unknown', 'textbf', B], ' ', ['verb', 'x y']], 'PROSEW', 1),
+        ('last_char', ['cat', A, ' ', ['unknown', 'textbf', B], ' ', T('x@H@')], 'PROSEW', 1),
+    ]
     out = [sk.item('sk:' + n, ['cat', family.PREAMBLE, sp], c, L, 'C02', cost=5,
                    lmin=1 if n == 'after_unknown0' else 0,
                    win=spl if isinstance(spl, tuple) else None) for n, sp, c, L, spl in S]
+    for n, sp, c, L in START:
+        it = sk.item('sk:' + n, sp, c, L, 'C02', cost=5, lmin=1, opts={})
+        it['win'] = (0, 5) if n == 'first_char' else (1, 0)
+        out.append(it)
     out.append(sk.item('sk:twin', ['cat', A, '@H@', B], 'SPACE', 1, 'C02', twin=True))
     return out
 
